@@ -34,7 +34,9 @@
              + replaced, sorted), declared classes (+ migrated, sorted), deprecated declared,
              1, 0, storage diffs, nonces); its length enters concat counts.
           Not distinguished by the definition (hence not listed): moving an entry between
-             deployed and replaced, or between declared and migrated; nil vs empty sections.
+             deployed and replaced, or between declared and migrated (these moves are the
+             OfferInapplicable family of BlockVerify.tla: the state layer's guards must refuse
+             them); nil vs empty sections.
    su.*   the state update's own declared block hash / new root must be the block's. *)
 EXTENDS BlockVerify
 
@@ -136,6 +138,7 @@ MCTargets ==
 MCShapesTwo == {"full", "emptydiff"}
 MCEmptyDiffShapes == {"emptydiff", "empty"}
 MCClassShapes == {"full"}
+MCDeployShapes == {"full", "bare"}      \* "full" deploys two contracts, "bare" one (nonce 0, no storage)
 
 (* older formats: used only for the repository's real fixture chains (no synthetic builder).
    post-0.7 Pedersen hash: number, state root, sequencer, timestamp, tx count, tx commitment
